@@ -108,6 +108,19 @@ def to_term(target: str, glob: bool):
     def scope(name):
         return "global" if (glob and name == "G") else "fast"
 
+    def first_insn(n) -> str:
+        """Kind of the first instruction compiled for a load expression: G = LOAD_GLOBAL (no NULL bit), GN = LOAD_GLOBAL
+        with the NULL bit, P = PUSH_NULL, O = anything else."""
+        if isinstance(n, ast.Name):
+            return "G" if scope(n.id) == "global" else "O"
+        if isinstance(n, (ast.Attribute, ast.Subscript)):
+            return first_insn(n.value)
+        if isinstance(n, ast.Call):
+            if isinstance(n.func, ast.Attribute):
+                return first_insn(n.func.value)
+            return "GN" if first_insn(n.func) == "G" else "P"
+        return "O"
+
     def expr(n):
         if isinstance(n, ast.Name):
             return ["var", scope(n.id), n.id], 1, n.id
@@ -122,7 +135,9 @@ def to_term(target: str, glob: bool):
             return ["subscr", c, i], k1 + k2 + 1, f"{r1}[{r2}]"
         if isinstance(n, ast.Call):
             f, k, r = expr(n.func)
-            pn = not (isinstance(n.func, ast.Attribute) or (isinstance(n.func, ast.Name) and scope(n.func.id) == "global"))
+            # 3.12: PUSH_NULL precedes the callee unless it is a method-style call (LOAD_ATTR pushes NULL|self) or the
+            # callee's first instruction is a LOAD_GLOBAL without the NULL bit (the peephole folds PUSH_NULL into it)
+            pn = not (isinstance(n.func, ast.Attribute) or first_insn(n.func) == "G")
             args = [expr(a) for a in n.args]
             return (["call", pn, f, [a[0] for a in args]], (1 if pn else 0) + k + sum(a[1] for a in args) + 1 + (len(args) >= 256),
                     f"{r}({', '.join(a[2] for a in args)})")
